@@ -5,6 +5,7 @@ package main
 import (
 	"fmt"
 	"go/types"
+	"regexp"
 	"sort"
 	"strings"
 
@@ -102,6 +103,13 @@ func (st *State) assume(t Term) {
 	}
 	if t.Sort != SBool {
 		panic("assume non-bool: " + t.S)
+	}
+	// top-level conjunctions become separate assertions (finer relevance slicing)
+	if strings.HasPrefix(t.S, "(and ") {
+		for _, c := range sexprTop(t.S)[1:] {
+			st.assume(Term{c, SBool})
+		}
+		return
 	}
 	st.push(&LogNode{Kind: KAssume, T: t})
 }
@@ -300,11 +308,64 @@ func collect(n *LogNode) []*LogNode {
 }
 
 // buildQuery produces the SMT text asking whether obligation `ob` can fail given its prefix.
-func (x *Exec) buildQuery(ob *LogNode) string { return x.buildQueryOpt(ob, false) }
+func (x *Exec) buildQuery(ob *LogNode) string { return x.buildQueryOpt(ob, false, false) }
+
+var symRe = regexp.MustCompile(`[A-Za-z_][A-Za-z0-9_.$!@]*`)
+
+func family(sym string) string {
+	if i := strings.LastIndexAny(sym, "@!"); i > 0 {
+		return sym[:i]
+	}
+	return sym
+}
+
+// families returns the heap-array families mentioned by a term.
+func families(s string, arrays map[string]bool) map[string]bool {
+	out := map[string]bool{}
+	for _, m := range symRe.FindAllString(s, -1) {
+		if arrays[m] {
+			out[family(m)] = true
+		}
+	}
+	return out
+}
 
 // buildQueryOpt with dropNL leaves out the defining equations of nonlinear terms: the named
 // constants become unconstrained, which only weakens the hypotheses (sound for proving).
-func (x *Exec) buildQueryOpt(ob *LogNode, dropNL bool) string {
+// With slice, hypotheses that only talk about heap leaves the goal does not mention are left out
+// as well (relevance slicing; again only weakens the hypotheses).
+func (x *Exec) buildQueryOpt(ob *LogNode, dropNL bool, slice bool) string {
+	nodes := collect(ob.Parent)
+	var goalFam map[string]bool
+	arrays := map[string]bool{}
+	if slice {
+		for g, srt := range x.globals {
+			if strings.HasPrefix(srt, "(Array") {
+				arrays[g] = true
+			}
+		}
+		for _, n := range nodes {
+			if n.Kind == KDecl && strings.HasPrefix(n.Sort, "(Array") {
+				arrays[n.Name] = true
+			}
+		}
+		goalFam = families(ob.T.S, arrays)
+	}
+	keep := func(t string) bool {
+		if !slice {
+			return true
+		}
+		fs := families(t, arrays)
+		if len(fs) == 0 {
+			return true
+		}
+		for f := range fs {
+			if goalFam[f] {
+				return true
+			}
+		}
+		return false
+	}
 	var sb strings.Builder
 	sb.WriteString(x.prog.prelude())
 	for _, g := range x.globOrder {
@@ -312,7 +373,7 @@ func (x *Exec) buildQueryOpt(ob *LogNode, dropNL bool) string {
 	}
 	sb.WriteString(x.extraDecls)
 	sb.WriteString(x.prog.postPrelude())
-	for _, n := range collect(ob.Parent) {
+	for _, n := range nodes {
 		switch n.Kind {
 		case KDecl:
 			fmt.Fprintf(&sb, "(declare-const %s %s)\n", n.Name, n.Sort)
@@ -320,9 +381,15 @@ func (x *Exec) buildQueryOpt(ob *LogNode, dropNL bool) string {
 			if dropNL && n.NL {
 				continue
 			}
+			if !keep(n.T.S) {
+				continue
+			}
 			fmt.Fprintf(&sb, "(assert %s)\n", n.T.S)
 		case KOblige:
 			// obligations already checked earlier on the path may be assumed
+			if !keep(n.T.S) {
+				continue
+			}
 			fmt.Fprintf(&sb, "(assert %s)\n", n.T.S)
 		}
 	}
